@@ -36,10 +36,30 @@ pub enum Val {
     Table(Arc<StdMutex<Vec<(Val, Val)>>>),
     /// mutable vector shared by reference (every access is a scheduling point)
     Vector(Arc<StdMutex<Vec<Val>>>),
+    /// quoted symbol
+    Sym(Arc<str>),
+    /// a pair whose cdr is not a list; mutable with set-car!/set-cdr! (lists proper are immutable in the stub)
+    Pair(Arc<PairCell>),
+    /// (ice-9 atomic) box
+    Box(Arc<StdMutex<Val>>),
+}
+
+#[derive(Debug)]
+pub struct PairCell {
+    car: StdMutex<Val>,
+    cdr: StdMutex<Val>,
+    /// assigned with set-car!/set-cdr! at least once: accesses become scheduling points
+    mutated: AtomicBool,
+}
+
+fn pair(a: Val, b: Val) -> Val {
+    Val::Pair(Arc::new(PairCell { car: StdMutex::new(a), cdr: StdMutex::new(b), mutated: AtomicBool::new(false) }))
 }
 
 #[derive(Debug)]
 pub struct Closure {
+    /// name of the parameter that takes the remaining arguments as a list: `(lambda (a . rest) ..)`, `(lambda args ..)`
+    rest: Option<String>,
     params: Vec<String>,
     body: Vec<Sexp>,
     env: Env,
@@ -81,6 +101,27 @@ pub enum EvalErr {
     Unsupported(String),
     /// the program did something the real runtime would raise an error for
     Runtime(String),
+    /// `(throw key args ...)` / `(error ...)` not (yet) caught
+    Thrown(String, Thrown),
+}
+
+/// arguments of a throw (compared by nothing: two throws to one key are the same error)
+#[derive(Clone, Debug)]
+pub struct Thrown(pub Vec<Val>);
+impl PartialEq for Thrown {
+    fn eq(&self, _: &Thrown) -> bool {
+        true
+    }
+}
+
+impl EvalErr {
+    /// an uncaught throw is an error of the policy like any other
+    pub fn settle(self) -> EvalErr {
+        match self {
+            EvalErr::Thrown(k, a) => EvalErr::Runtime(format!("uncaught throw to {k}: {:?}", a.0)),
+            other => other,
+        }
+    }
 }
 
 type R<T = Val> = Result<T, EvalErr>;
@@ -179,6 +220,9 @@ pub struct Knobs {
     pub stall_large_writes: Option<usize>,
     /// a flush resets the buffer cursor before (true) or after (false) it hands the data over
     pub flush_resets_first: bool,
+    /// buckets of every hash table (1: any two keys share a chain, which is also what a resize
+    /// does to every insertion that overlaps it)
+    pub table_buckets: usize,
 }
 
 pub struct Runtime {
@@ -198,6 +242,7 @@ pub struct Runtime {
     assigned: StdMutex<std::collections::BTreeSet<String>>,
     /// channel to the scheduler (stall requests)
     pub sched: StdMutex<Option<Arc<crate::sched::Shared>>>,
+    default_out: StdMutex<Option<usize>>,
 }
 
 /// One buffered character with its provenance: (char, file, printer call, writing thread).
@@ -244,6 +289,15 @@ const PROCEDURES: &[&str] = &[
     "newline", "string-append", "number->string", "make-recursive-mutex", "lock-mutex", "unlock-mutex", "list", "cons",
     "car", "cdr", "null?", "reverse", "append", "length", "for-each", "eq?", "eqv?", "string=?", "string-null?",
     "string-length", "zero?", "1+", "1-", "force-output", "flush-all-ports", "string?", "apply", "string-join", "make-hash-table", "hash-set!", "hash-ref", "hash-remove!", "hash-count",
+    "hashq-set!", "hashq-ref", "hashq-remove!", "hashv-set!", "hashv-ref", "hashv-remove!", "hash-clear!", "hash-map->list", "hash-for-each", "hash-fold",
+    "write", "write-char", "write-string", "put-string", "put-char", "simple-format", "setvbuf", "port-closed?", "throw", "error", "scm-error", "catch",
+    "with-throw-handler", "make-atomic-box", "atomic-box-ref", "atomic-box-set!", "atomic-box-swap!", "atomic-box-compare-and-swap!", "set-car!", "set-cdr!",
+    "substring", "string-take", "string-drop", "string-upcase", "string-downcase", "string-copy", "string-index", "string-rindex", "string-prefix?",
+    "string-suffix?", "string-contains", "string-pad-left", "string-pad-right", "string->list", "list->string", "make-string", "char->integer",
+    "integer->char", "string->number", "string->symbol", "symbol->string", "char?", "number?", "integer?", "boolean?", "procedure?", "even?", "odd?",
+    "positive?", "negative?", "logior", "logxor", "ash", "map", "filter", "fold", "reduce", "iota", "last", "list-tail", "list-head", "vector->list",
+    "list->vector", "vector-for-each", "values", "identity", "usleep", "sleep", "yield",
+    "pair?", "list?", "symbol?", "cadr", "cddr", "caar", "cdar", "assq", "assv", "assoc", "assq-ref", "assv-ref", "assoc-ref", "memq", "memv",
     "current-thread", "try-mutex", "mutex-locked?", "mutex-owner", "call-with-output-string", "open-output-string", "get-output-string", "vector", "vector-ref", "vector-length", "make-vector",
     "vector-set!", "vector-fill!", "list-ref", "min", "max", "abs", "modulo", "remainder",
 ];
@@ -299,8 +353,95 @@ fn display_string(v: &Val) -> R<String> {
         Val::Bool(true) => "#t".into(),
         Val::Bool(false) => "#f".into(),
         Val::Unspec => String::new(),
+        Val::Sym(x) => x.to_string(),
+        Val::List(l) => {
+            let mut parts = vec![];
+            for v in l.iter() {
+                parts.push(display_string(v)?);
+            }
+            format!("({})", parts.join(" "))
+        }
+        Val::Pair(p) => format!("({} . {})", display_string(&p.car.lock().unwrap())?, display_string(&p.cdr.lock().unwrap())?),
         other => return unsupported(format!("display of {other:?}")),
     })
+}
+
+/// `write` representation: strings quoted and escaped, characters as `#\x`, the rest as `display`
+fn write_string(v: &Val) -> R<String> {
+    Ok(match v {
+        Val::Str(s) => {
+            let mut out = String::from("\"");
+            for c in s.chars() {
+                match c {
+                    '"' => out.push_str("\\\""),
+                    '\\' => out.push_str("\\\\"),
+                    '\n' => out.push_str("\\n"),
+                    c => out.push(c),
+                }
+            }
+            out.push('"');
+            out
+        }
+        Val::Char(c) => format!("#\\{c}"),
+        Val::List(l) => {
+            let mut parts = vec![];
+            for v in l.iter() {
+                parts.push(write_string(v)?);
+            }
+            format!("({})", parts.join(" "))
+        }
+        other => display_string(other)?,
+    })
+}
+
+fn quoted(x: &Sexp) -> R {
+    Ok(match x {
+        Sexp::Str(s) => Val::Str(Arc::from(s.as_str())),
+        Sexp::Char(c) => Val::Char(*c),
+        Sexp::Bool(b) => Val::Bool(*b),
+        Sexp::Int(i) => Val::Int(*i),
+        Sexp::Sym(s) => Val::Sym(Arc::from(s.as_str())),
+        Sexp::List(items) => {
+            if items.len() == 3 && matches!(&items[1], Sexp::Sym(d) if d == ".") {
+                return Ok(pair(quoted(&items[0])?, quoted(&items[2])?));
+            }
+            if items.iter().any(|i| matches!(i, Sexp::Sym(d) if d == ".")) {
+                return unsupported("quoted improper list");
+            }
+            let mut out = vec![];
+            for i in items {
+                out.push(quoted(i)?);
+            }
+            Val::List(Arc::new(out))
+        }
+    })
+}
+
+/// eqv?-style sameness of two values used as keys
+fn same_key(a: &Val, b: &Val) -> bool {
+    match (a, b) {
+        (Val::Str(x), Val::Str(y)) => x == y,
+        (Val::Int(x), Val::Int(y)) => x == y,
+        (Val::Char(x), Val::Char(y)) => x == y,
+        (Val::Bool(x), Val::Bool(y)) => x == y,
+        (Val::Sym(x), Val::Sym(y)) => x == y,
+        (Val::Port(x), Val::Port(y)) => x == y,
+        (Val::Mutex(x), Val::Mutex(y)) => x == y,
+        _ => false,
+    }
+}
+
+fn key_hash(v: &Val) -> u64 {
+    match v {
+        Val::Str(x) => crate::rng::hash_str(x),
+        Val::Sym(x) => crate::rng::hash_str(x) ^ 0x55,
+        Val::Int(x) => crate::rng::mix(&[*x as u64, 0x1]),
+        Val::Char(x) => crate::rng::mix(&[*x as u64, 0x2]),
+        Val::Bool(x) => *x as u64,
+        Val::Port(x) => crate::rng::mix(&[*x as u64, 0x3]),
+        Val::Mutex(x) => crate::rng::mix(&[*x as u64, 0x4]),
+        _ => 0,
+    }
 }
 
 fn truthy(v: &Val) -> bool {
@@ -364,6 +505,7 @@ impl Runtime {
             next_file: AtomicUsize::new(0),
             assigned: StdMutex::new(Default::default()),
             sched: StdMutex::new(None),
+            default_out: StdMutex::new(None),
         }
     }
 
@@ -587,6 +729,28 @@ impl Runtime {
         Ok(())
     }
 
+    fn pair_cdr(&self, p: &PairCell) -> Val {
+        if p.mutated.load(Ordering::SeqCst) {
+            self.point();
+        }
+        p.cdr.lock().unwrap().clone()
+    }
+
+    /// the port that `(display x)` without a port argument writes to
+    fn default_port(&self) -> usize {
+        let mut d = self.default_out.lock().unwrap();
+        if let Some(p) = *d {
+            return p;
+        }
+        let mut ports = self.ports.lock().unwrap();
+        ports.push(PortSt { dest: "stdout".to_string(), open: true, buf: vec![], cursor: 0, capture: None });
+        let id = ports.len() - 1;
+        drop(ports);
+        self.ev(Ev::OpenPort { port: id, dest: "stdout".to_string() });
+        *d = Some(id);
+        id
+    }
+
     fn with_mutex(&self, mutex: usize, ctx: &mut Ctx, body: impl FnOnce(&mut Ctx) -> R) -> R {
         self.acquire(mutex, ctx, "with-mutex")?;
         let r = body(ctx);
@@ -616,7 +780,7 @@ impl Runtime {
                 }
                 // the procedure may refer to itself: bind first, then patch the cell
                 let inner = bind(env, n, Val::Unspec);
-                let clo = Val::Closure(Arc::new(Closure { params, body: items[2..].to_vec(), env: inner.clone() }));
+                let clo = Val::Closure(Arc::new(Closure { rest: None, params, body: items[2..].to_vec(), env: inner.clone() }));
                 *inner.as_ref().unwrap().val.lock().unwrap() = clo;
                 Ok(inner)
             }
@@ -644,12 +808,16 @@ impl Runtime {
     pub fn apply(self: &Arc<Self>, f: &Val, args: Vec<Val>, ctx: &mut Ctx) -> R {
         match f {
             Val::Closure(c) => {
-                if c.params.len() != args.len() {
+                if c.params.len() != args.len() && !(c.rest.is_some() && args.len() > c.params.len()) {
                     return runtime(format!("wrong number of arguments to procedure: expected {}, got {}", c.params.len(), args.len()));
                 }
                 let mut env = c.env.clone();
-                for (p, a) in c.params.iter().zip(args) {
-                    env = bind(&env, p, a);
+                let mut args = args.into_iter();
+                for p in c.params.iter() {
+                    env = bind(&env, p, args.next().unwrap_or(Val::Unspec));
+                }
+                if let Some(r) = &c.rest {
+                    env = bind(&env, r, Val::List(Arc::new(args.collect())));
                 }
                 self.eval_body(&c.body, &env, ctx)
             }
@@ -721,17 +889,36 @@ impl Runtime {
                     if lookup(env, s).is_none() {
                         match s.as_str() {
                             "use-modules" => return Ok(Val::Unspec),
-                            "quote" => return unsupported("quote"),
+                            "quote" => {
+                                let Some(q) = items.get(1) else { return unsupported("malformed quote") };
+                                return quoted(q);
+                            }
                             "lambda" => {
-                                let Some(Sexp::List(ps)) = items.get(1) else { return unsupported("lambda with non-list parameters") };
-                                let mut params = vec![];
-                                for p in ps {
-                                    match p {
-                                        Sexp::Sym(n) => params.push(n.clone()),
-                                        _ => return unsupported("lambda parameter that is not a symbol"),
+                                let (params, rest) = match items.get(1) {
+                                    Some(Sexp::Sym(all)) => (vec![], Some(all.clone())),
+                                    Some(Sexp::List(ps)) => {
+                                        let mut params = vec![];
+                                        let mut rest = None;
+                                        let mut k = 0;
+                                        while k < ps.len() {
+                                            match &ps[k] {
+                                                Sexp::Sym(d) if d == "." => match (ps.get(k + 1), ps.len() == k + 2) {
+                                                    (Some(Sexp::Sym(r)), true) => {
+                                                        rest = Some(r.clone());
+                                                        k += 1;
+                                                    }
+                                                    _ => return unsupported("malformed rest parameter"),
+                                                },
+                                                Sexp::Sym(n) => params.push(n.clone()),
+                                                _ => return unsupported("lambda parameter that is not a symbol"),
+                                            }
+                                            k += 1;
+                                        }
+                                        (params, rest)
                                     }
-                                }
-                                return Ok(Val::Closure(Arc::new(Closure { params, body: items[2..].to_vec(), env: env.clone() })));
+                                    _ => return unsupported("lambda without parameter list"),
+                                };
+                                return Ok(Val::Closure(Arc::new(Closure { rest, params, body: items[2..].to_vec(), env: env.clone() })));
                             }
                             "let" if matches!(items.get(1), Some(Sexp::Sym(_))) => {
                                 // named let: (let loop ((v init) ...) body ...)
@@ -749,7 +936,7 @@ impl Runtime {
                                     inits.push(self.eval(init, env, ctx)?);
                                 }
                                 let inner = bind(env, lname, Val::Unspec);
-                                let clo = Val::Closure(Arc::new(Closure { params, body: items[3..].to_vec(), env: inner.clone() }));
+                                let clo = Val::Closure(Arc::new(Closure { rest: None, params, body: items[3..].to_vec(), env: inner.clone() }));
                                 *inner.as_ref().unwrap().val.lock().unwrap() = clo.clone();
                                 return self.apply(&clo, inits, ctx);
                             }
@@ -803,6 +990,85 @@ impl Runtime {
                                     }
                                 }
                                 return Ok(Val::Unspec);
+                            }
+                            "case" => {
+                                let key = self.eval(items.get(1).ok_or(EvalErr::Runtime("case without key".into()))?, env, ctx)?;
+                                for clause in &items[2..] {
+                                    let Sexp::List(c) = clause else { return unsupported("malformed case clause") };
+                                    let hit = match c.first() {
+                                        Some(Sexp::Sym(e)) if e == "else" => true,
+                                        Some(Sexp::List(data)) => {
+                                            let mut any = false;
+                                            for d in data {
+                                                any |= same_key(&quoted(d)?, &key);
+                                            }
+                                            any
+                                        }
+                                        _ => return unsupported("malformed case clause"),
+                                    };
+                                    if hit {
+                                        let mut last = Val::Unspec;
+                                        for form in &c[1..] {
+                                            last = self.eval(form, env, ctx)?;
+                                        }
+                                        return Ok(last);
+                                    }
+                                }
+                                return Ok(Val::Unspec);
+                            }
+                            "do" => {
+                                // (do ((var init step) ...) (test result ...) body ...)
+                                let (Some(Sexp::List(specs)), Some(Sexp::List(end))) = (items.get(1), items.get(2)) else { return unsupported("malformed do") };
+                                let mut vars: Vec<(String, Option<Sexp>)> = vec![];
+                                let mut inner = env.clone();
+                                let mut inits = vec![];
+                                for sp in specs {
+                                    let Sexp::List(sp) = sp else { return unsupported("malformed do binding") };
+                                    let (Some(Sexp::Sym(n)), Some(init)) = (sp.first(), sp.get(1)) else { return unsupported("malformed do binding") };
+                                    inits.push((n.clone(), self.eval(init, env, ctx)?));
+                                    vars.push((n.clone(), sp.get(2).cloned()));
+                                }
+                                for (n, v) in inits {
+                                    inner = bind(&inner, &n, v);
+                                }
+                                let mut rounds = 0u64;
+                                loop {
+                                    rounds += 1;
+                                    if rounds > 1_000_000 {
+                                        return runtime("do loop does not terminate");
+                                    }
+                                    let t = self.eval(end.first().ok_or(EvalErr::Runtime("do without test".into()))?, &inner, ctx)?;
+                                    if truthy(&t) {
+                                        let mut last = Val::Unspec;
+                                        for form in &end[1..] {
+                                            last = self.eval(form, &inner, ctx)?;
+                                        }
+                                        return Ok(last);
+                                    }
+                                    for form in &items[3..] {
+                                        self.eval(form, &inner, ctx)?;
+                                    }
+                                    let mut next = vec![];
+                                    for (n, step) in &vars {
+                                        if let Some(st) = step {
+                                            next.push((n.clone(), self.eval(st, &inner, ctx)?));
+                                        }
+                                    }
+                                    for (n, v) in next {
+                                        inner = bind(&inner, &n, v);
+                                    }
+                                }
+                            }
+                            "false-if-exception" => {
+                                let mut last = Val::Unspec;
+                                for form in &items[1..] {
+                                    match self.eval(form, env, ctx) {
+                                        Ok(v) => last = v,
+                                        Err(EvalErr::Unsupported(e)) => return unsupported(e),
+                                        Err(_) => return Ok(Val::Bool(false)),
+                                    }
+                                }
+                                return Ok(last);
                             }
                             "begin" => {
                                 let mut last = Val::Unspec;
@@ -1076,8 +1342,12 @@ impl Runtime {
                         continue;
                     }
                     match chars.next() {
-                        Some('a') | Some('A') | Some('d') | Some('D') | Some('s') | Some('S') => match rest.next() {
+                        Some('a') | Some('A') | Some('d') | Some('D') => match rest.next() {
                             Some(v) => out.push_str(&display_string(v)?),
+                            None => return runtime("format: missing argument"),
+                        },
+                        Some('s') | Some('S') => match rest.next() {
+                            Some(v) => out.push_str(&write_string(v)?),
                             None => return runtime("format: missing argument"),
                         },
                         Some('o') | Some('O') => match rest.next() {
@@ -1105,24 +1375,309 @@ impl Runtime {
                         self.write(ctx, p, &out)?;
                         Ok(Val::Unspec)
                     }
+                    Val::Bool(true) => {
+                        let p = self.default_port();
+                        self.write(ctx, p, &out)?;
+                        Ok(Val::Unspec)
+                    }
                     other => unsupported(format!("format destination {other:?}")),
                 }
             }
             // ---- ports, mutexes, printers
-            "display" | "newline" => {
-                let (text, port) = if name == "newline" {
-                    ("\n".to_string(), args.first())
-                } else {
-                    (display_string(args.first().unwrap_or(&Val::Unspec))?, args.get(1))
+            "display" | "newline" | "write" | "write-char" | "write-string" | "put-string" | "put-char" => {
+                // (put-string port s) / (put-char port c) take the port first
+                let (val, port) = match name {
+                    "newline" => (None, args.first()),
+                    "put-string" | "put-char" => (args.get(1), args.first()),
+                    _ => (args.first(), args.get(1)),
+                };
+                let text = match (name, val) {
+                    ("newline", _) => "\n".to_string(),
+                    ("write", Some(v)) => write_string(v)?,
+                    (_, Some(v)) => display_string(v)?,
+                    (_, None) => return runtime(format!("{name}: missing argument")),
                 };
                 match port {
                     Some(Val::Port(p)) => {
                         self.write(ctx, *p, &text)?;
                         Ok(Val::Unspec)
                     }
-                    None => unsupported("display without an explicit port"),
-                    Some(other) => runtime(format!("display: not a port: {other:?}")),
+                    None => {
+                        let p = self.default_port();
+                        self.write(ctx, p, &text)?;
+                        Ok(Val::Unspec)
+                    }
+                    Some(other) => runtime(format!("{name}: not a port: {other:?}")),
                 }
+            }
+            "simple-format" => self.builtin("format", args, ctx),
+            "setvbuf" => Ok(Val::Unspec), // buffering is the simulator's decision (A3): a program must be correct under both
+            "port-closed?" => match args.first() {
+                Some(Val::Port(p)) => Ok(Val::Bool(!self.ports.lock().unwrap().get(*p).map(|x| x.open).unwrap_or(false))),
+                other => runtime(format!("port-closed?: not a port: {other:?}")),
+            },
+            "throw" | "error" | "scm-error" => {
+                let key = match (name, args.first()) {
+                    ("throw", Some(Val::Sym(k))) => k.to_string(),
+                    ("throw", other) => return runtime(format!("throw: key is not a symbol: {other:?}")),
+                    _ => "misc-error".to_string(),
+                };
+                Err(EvalErr::Thrown(key, Thrown(if name == "throw" { args[1..].to_vec() } else { args })))
+            }
+            "catch" | "with-throw-handler" => {
+                let (Some(key), Some(thunk), Some(handler)) = (args.first(), args.get(1), args.get(2)) else { return runtime(format!("{name}: expected key, thunk, handler")) };
+                match self.apply(thunk, vec![], ctx) {
+                    Ok(v) => Ok(v),
+                    Err(EvalErr::Unsupported(e)) => unsupported(e),
+                    Err(e) => {
+                        let (k, a) = match e {
+                            EvalErr::Thrown(k, a) => (k, a.0),
+                            EvalErr::Runtime(m) => ("misc-error".to_string(), vec![Val::Str(Arc::from(m.as_str()))]),
+                            EvalErr::Unsupported(_) => unreachable!(),
+                        };
+                        let wanted = match key {
+                            Val::Bool(true) => true,
+                            Val::Sym(w) => **w == *k,
+                            _ => false,
+                        };
+                        if !wanted {
+                            return Err(EvalErr::Thrown(k, Thrown(a)));
+                        }
+                        let mut hargs = vec![Val::Sym(Arc::from(k.as_str()))];
+                        hargs.extend(a.iter().cloned());
+                        let r = self.apply(handler, hargs, ctx)?;
+                        if name == "with-throw-handler" {
+                            // the handler runs, then the throw continues
+                            return Err(EvalErr::Thrown(k, Thrown(a)));
+                        }
+                        Ok(r)
+                    }
+                }
+            }
+            "make-atomic-box" => Ok(Val::Box(Arc::new(StdMutex::new(args.first().cloned().unwrap_or(Val::Unspec))))),
+            "atomic-box-ref" | "atomic-box-set!" | "atomic-box-swap!" | "atomic-box-compare-and-swap!" => {
+                let Some(Val::Box(b)) = args.first() else { return runtime(format!("{name}: not an atomic box")) };
+                // one indivisible operation; their order is up to the schedule
+                self.point();
+                let mut cell = b.lock().unwrap();
+                match name {
+                    "atomic-box-ref" => Ok(cell.clone()),
+                    "atomic-box-set!" => {
+                        *cell = args.get(1).cloned().unwrap_or(Val::Unspec);
+                        Ok(Val::Unspec)
+                    }
+                    "atomic-box-swap!" => Ok(std::mem::replace(&mut *cell, args.get(1).cloned().unwrap_or(Val::Unspec))),
+                    _ => {
+                        let expected = args.get(1).cloned().unwrap_or(Val::Unspec);
+                        let old = cell.clone();
+                        let same = same_key(&old, &expected) || matches!((&old, &expected), (Val::List(a), Val::List(b)) if Arc::ptr_eq(a, b) || (a.is_empty() && b.is_empty()));
+                        if same {
+                            *cell = args.get(2).cloned().unwrap_or(Val::Unspec);
+                        }
+                        Ok(old)
+                    }
+                }
+            }
+            "set-car!" | "set-cdr!" => match args.first() {
+                Some(Val::Pair(p)) => {
+                    p.mutated.store(true, Ordering::SeqCst);
+                    self.point();
+                    let v = args.get(1).cloned().unwrap_or(Val::Unspec);
+                    if name == "set-car!" {
+                        *p.car.lock().unwrap() = v;
+                    } else {
+                        *p.cdr.lock().unwrap() = v;
+                    }
+                    Ok(Val::Unspec)
+                }
+                Some(Val::List(_)) => unsupported(format!("{name} on a proper list (lists are immutable in the stub)")),
+                other => runtime(format!("{name}: not a pair: {other:?}")),
+            },
+            "substring" | "string-take" | "string-drop" => {
+                let t: Vec<char> = as_str(args.first().unwrap_or(&Val::Unspec), name)?.chars().collect();
+                let a = as_int(args.get(1).unwrap_or(&Val::Int(0)), name)?.max(0) as usize;
+                let (from, to) = match name {
+                    "substring" => (a, args.get(2).map(|v| as_int(v, name)).transpose()?.map(|x| x.max(0) as usize).unwrap_or(t.len())),
+                    "string-take" => (0, a),
+                    _ => (a, t.len()),
+                };
+                if from > to || to > t.len() {
+                    return runtime(format!("{name}: range {from}..{to} out of bounds for a string of {} characters", t.len()));
+                }
+                s(&t[from..to].iter().collect::<String>())
+            }
+            "string-upcase" => s(&as_str(args.first().unwrap_or(&Val::Unspec), name)?.to_uppercase()),
+            "string-downcase" => s(&as_str(args.first().unwrap_or(&Val::Unspec), name)?.to_lowercase()),
+            "string-copy" => s(as_str(args.first().unwrap_or(&Val::Unspec), name)?),
+            "string-index" | "string-rindex" => {
+                let t: Vec<char> = as_str(args.first().unwrap_or(&Val::Unspec), name)?.chars().collect();
+                let Some(Val::Char(c)) = args.get(1) else { return unsupported("string-index with a predicate") };
+                let pos = if name == "string-index" { t.iter().position(|x| x == c) } else { t.iter().rposition(|x| x == c) };
+                Ok(pos.map(|i| Val::Int(i as i128)).unwrap_or(Val::Bool(false)))
+            }
+            "string-prefix?" | "string-suffix?" | "string-contains" => {
+                let a = as_str(args.first().unwrap_or(&Val::Unspec), name)?;
+                let b = as_str(args.get(1).unwrap_or(&Val::Unspec), name)?;
+                Ok(match name {
+                    "string-prefix?" => Val::Bool(b.starts_with(a)),
+                    "string-suffix?" => Val::Bool(b.ends_with(a)),
+                    _ => a.find(b).map(|i| Val::Int(a[..i].chars().count() as i128)).unwrap_or(Val::Bool(false)),
+                })
+            }
+            "string-pad-left" | "string-pad-right" => {
+                let t: Vec<char> = as_str(args.first().unwrap_or(&Val::Unspec), name)?.chars().collect();
+                let n = as_int(args.get(1).unwrap_or(&Val::Int(0)), name)?.max(0) as usize;
+                let fill = match args.get(2) {
+                    Some(Val::Char(c)) => *c,
+                    _ => ' ',
+                };
+                let out: String = if name == "string-pad-left" {
+                    if t.len() >= n { t[t.len() - n..].iter().collect() } else { std::iter::repeat(fill).take(n - t.len()).chain(t.iter().copied()).collect() }
+                } else if t.len() >= n {
+                    t[..n].iter().collect()
+                } else {
+                    t.iter().copied().chain(std::iter::repeat(fill).take(n - t.len())).collect()
+                };
+                s(&out)
+            }
+            "string->list" => Ok(Val::List(Arc::new(as_str(args.first().unwrap_or(&Val::Unspec), name)?.chars().map(Val::Char).collect()))),
+            "list->string" => match args.first() {
+                Some(Val::List(l)) => {
+                    let mut out = String::new();
+                    for c in l.iter() {
+                        match c {
+                            Val::Char(c) => out.push(*c),
+                            other => return runtime(format!("list->string: not a character: {other:?}")),
+                        }
+                    }
+                    s(&out)
+                }
+                other => runtime(format!("list->string: not a list: {other:?}")),
+            },
+            "make-string" => {
+                let n = as_int(args.first().unwrap_or(&Val::Int(0)), name)?.clamp(0, 1 << 20) as usize;
+                let fill = match args.get(1) {
+                    Some(Val::Char(c)) => *c,
+                    _ => ' ',
+                };
+                s(&std::iter::repeat(fill).take(n).collect::<String>())
+            }
+            "char->integer" => match args.first() {
+                Some(Val::Char(c)) => Ok(Val::Int(*c as i128)),
+                other => runtime(format!("char->integer: not a character: {other:?}")),
+            },
+            "integer->char" => match char::from_u32(as_int(args.first().unwrap_or(&Val::Unspec), name)? as u32) {
+                Some(c) => Ok(Val::Char(c)),
+                None => runtime("integer->char: not a character code"),
+            },
+            "string->number" => Ok(as_str(args.first().unwrap_or(&Val::Unspec), name)?.trim().parse::<i128>().map(Val::Int).unwrap_or(Val::Bool(false))),
+            "string->symbol" => Ok(Val::Sym(Arc::from(as_str(args.first().unwrap_or(&Val::Unspec), name)?))),
+            "symbol->string" => match args.first() {
+                Some(Val::Sym(x)) => s(x),
+                other => runtime(format!("symbol->string: not a symbol: {other:?}")),
+            },
+            "char?" => Ok(Val::Bool(matches!(args.first(), Some(Val::Char(_))))),
+            "number?" | "integer?" => Ok(Val::Bool(matches!(args.first(), Some(Val::Int(_))) || (name == "number?" && matches!(args.first(), Some(Val::Real(_)))))),
+            "boolean?" => Ok(Val::Bool(matches!(args.first(), Some(Val::Bool(_))))),
+            "procedure?" => Ok(Val::Bool(matches!(args.first(), Some(Val::Closure(_) | Val::Builtin(_) | Val::Printer { .. })))),
+            "even?" => Ok(Val::Bool(as_int(args.first().unwrap_or(&Val::Unspec), name)? % 2 == 0)),
+            "odd?" => Ok(Val::Bool(as_int(args.first().unwrap_or(&Val::Unspec), name)? % 2 != 0)),
+            "positive?" => Ok(Val::Bool(as_int(args.first().unwrap_or(&Val::Unspec), name)? > 0)),
+            "negative?" => Ok(Val::Bool(as_int(args.first().unwrap_or(&Val::Unspec), name)? < 0)),
+            "logior" | "logxor" | "ash" => {
+                let a = as_int(args.first().unwrap_or(&Val::Unspec), name)?;
+                let b = as_int(args.get(1).unwrap_or(&Val::Int(0)), name)?;
+                Ok(Val::Int(match name {
+                    "logior" => a | b,
+                    "logxor" => a ^ b,
+                    _ => {
+                        if b >= 0 {
+                            a.checked_shl(b.min(100) as u32).unwrap_or(0)
+                        } else {
+                            a >> (-b).min(127)
+                        }
+                    }
+                }))
+            }
+            "map" => match (args.first(), args.get(1)) {
+                (Some(f), Some(Val::List(l))) if args.len() == 2 => {
+                    let mut out = vec![];
+                    for item in l.iter() {
+                        out.push(self.apply(f, vec![item.clone()], ctx)?);
+                    }
+                    Ok(Val::List(Arc::new(out)))
+                }
+                _ => unsupported("map over several lists or a non-list"),
+            },
+            "filter" => match (args.first(), args.get(1)) {
+                (Some(f), Some(Val::List(l))) => {
+                    let mut out = vec![];
+                    for item in l.iter() {
+                        if truthy(&self.apply(f, vec![item.clone()], ctx)?) {
+                            out.push(item.clone());
+                        }
+                    }
+                    Ok(Val::List(Arc::new(out)))
+                }
+                _ => runtime("filter: expected a procedure and a list"),
+            },
+            "fold" | "reduce" => match (args.first(), args.get(1), args.get(2)) {
+                (Some(f), Some(init), Some(Val::List(l))) => {
+                    let mut acc = init.clone();
+                    for (i, item) in l.iter().enumerate() {
+                        if name == "reduce" && i == 0 {
+                            acc = item.clone();
+                            continue;
+                        }
+                        acc = self.apply(f, vec![item.clone(), acc], ctx)?;
+                    }
+                    Ok(acc)
+                }
+                _ => runtime(format!("{name}: expected a procedure, an initial value and a list")),
+            },
+            "iota" => Ok(Val::List(Arc::new((0..as_int(args.first().unwrap_or(&Val::Int(0)), name)?.clamp(0, 100_000)).map(Val::Int).collect()))),
+            "last" | "list-tail" | "list-head" => match args.first() {
+                Some(Val::List(l)) => match name {
+                    "last" => l.last().cloned().ok_or(EvalErr::Runtime("last of empty list".into())),
+                    _ => {
+                        let k = as_int(args.get(1).unwrap_or(&Val::Int(0)), name)?.max(0) as usize;
+                        if k > l.len() {
+                            return runtime(format!("{name}: index out of range"));
+                        }
+                        Ok(Val::List(Arc::new(if name == "list-tail" { l[k..].to_vec() } else { l[..k].to_vec() })))
+                    }
+                },
+                other => runtime(format!("{name}: not a list: {other:?}")),
+            },
+            "vector->list" => match args.first() {
+                Some(Val::Vector(v)) => {
+                    self.point();
+                    Ok(Val::List(Arc::new(v.lock().unwrap().clone())))
+                }
+                other => runtime(format!("vector->list: not a vector: {other:?}")),
+            },
+            "list->vector" => match args.first() {
+                Some(Val::List(l)) => Ok(Val::Vector(Arc::new(StdMutex::new(l.to_vec())))),
+                other => runtime(format!("list->vector: not a list: {other:?}")),
+            },
+            "vector-for-each" => match (args.first(), args.get(1)) {
+                (Some(f), Some(Val::Vector(v))) => {
+                    self.point();
+                    let items = v.lock().unwrap().clone();
+                    for item in items {
+                        self.apply(f, vec![item], ctx)?;
+                    }
+                    Ok(Val::Unspec)
+                }
+                _ => runtime("vector-for-each: expected a procedure and a vector"),
+            },
+            "values" if args.len() == 1 => Ok(args[0].clone()),
+            "identity" => Ok(args.first().cloned().unwrap_or(Val::Unspec)),
+            "const" => unsupported("const"),
+            "usleep" | "sleep" | "yield" => {
+                // a pause is a scheduling point and nothing else
+                self.point();
+                Ok(Val::Unspec)
             }
             "current-output-port" | "open-file" => {
                 let dest = if name == "open-file" {
@@ -1249,7 +1804,49 @@ impl Runtime {
                     v.extend(rest.iter().cloned());
                     Ok(Val::List(Arc::new(v)))
                 }
-                _ => unsupported("cons onto a non-list"),
+                (Some(a), Some(b)) => Ok(pair(a.clone(), b.clone())),
+                _ => runtime("cons: needs two arguments"),
+            },
+            "pair?" => Ok(Val::Bool(match args.first() {
+                Some(Val::Pair(_)) => true,
+                Some(Val::List(l)) => !l.is_empty(),
+                _ => false,
+            })),
+            "list?" => Ok(Val::Bool(matches!(args.first(), Some(Val::List(_))))),
+            "symbol?" => Ok(Val::Bool(matches!(args.first(), Some(Val::Sym(_))))),
+            "cadr" | "cddr" | "caar" | "cdar" => {
+                let (outer, inner): (&'static str, &'static str) = match name {
+                    "cadr" => ("car", "cdr"),
+                    "cddr" => ("cdr", "cdr"),
+                    "caar" => ("car", "car"),
+                    _ => ("cdr", "car"),
+                };
+                let mid = self.builtin(inner, args, ctx)?;
+                self.builtin(outer, vec![mid], ctx)
+            }
+            "assq" | "assv" | "assoc" | "assq-ref" | "assv-ref" | "assoc-ref" => {
+                // (assq key alist) but (assq-ref alist key)
+                let is_ref = name.ends_with("-ref");
+                let (key, alist) = if is_ref { (args.get(1), args.first()) } else { (args.first(), args.get(1)) };
+                let (Some(key), Some(Val::List(l))) = (key, alist) else { return runtime(format!("{name}: expected a key and an association list")) };
+                for entry in l.iter() {
+                    let (k, v) = match entry {
+                        Val::Pair(p) => (p.car.lock().unwrap().clone(), self.pair_cdr(p)),
+                        Val::List(e) if !e.is_empty() => (e[0].clone(), Val::List(Arc::new(e[1..].to_vec()))),
+                        _ => continue,
+                    };
+                    if same_key(&k, key) {
+                        return Ok(if is_ref { v } else { entry.clone() });
+                    }
+                }
+                Ok(Val::Bool(false))
+            }
+            "memq" | "memv" => match (args.first(), args.get(1)) {
+                (Some(x), Some(Val::List(l))) => Ok(match l.iter().position(|e| same_key(e, x)) {
+                    Some(i) => Val::List(Arc::new(l[i..].to_vec())),
+                    None => Val::Bool(false),
+                }),
+                _ => runtime(format!("{name}: expected a value and a list")),
             },
             "car" | "cdr" | "null?" | "reverse" | "length" => match args.first() {
                 Some(Val::List(l)) => match name {
@@ -1265,6 +1862,13 @@ impl Runtime {
                     "reverse" => Ok(Val::List(Arc::new(l.iter().rev().cloned().collect()))),
                     _ => Ok(Val::Int(l.len() as i128)),
                 },
+                Some(Val::Pair(p)) if name == "car" => {
+                    if p.mutated.load(Ordering::SeqCst) {
+                        self.point();
+                    }
+                    Ok(p.car.lock().unwrap().clone())
+                }
+                Some(Val::Pair(p)) if name == "cdr" => Ok(self.pair_cdr(p)),
                 Some(_) if name == "null?" => Ok(Val::Bool(false)),
                 other => runtime(format!("{name}: not a list: {other:?}")),
             },
@@ -1302,36 +1906,83 @@ impl Runtime {
                 (Some(Val::Char(a)), Some(Val::Char(b))) => a == b,
                 (Some(Val::Port(a)), Some(Val::Port(b))) => a == b,
                 (Some(Val::Mutex(a)), Some(Val::Mutex(b))) => a == b,
+                (Some(Val::Sym(a)), Some(Val::Sym(b))) => a == b,
+                (Some(Val::List(a)), Some(Val::List(b))) => a.is_empty() && b.is_empty(),
                 _ => false,
             })),
             "make-hash-table" => Ok(Val::Table(Arc::new(StdMutex::new(vec![])))),
-            "hash-set!" | "hash-ref" | "hash-remove!" | "hash-count" => {
-                let Some(Val::Table(t)) = args.first() else { return runtime(format!("{name}: not a hash table")) };
-                // shared mutable state: each operation is atomic, their order is up to the schedule
+            "hash-set!" | "hash-ref" | "hash-remove!" | "hash-count" | "hashq-set!" | "hashq-ref" | "hashq-remove!" | "hashv-set!" | "hashv-ref"
+            | "hashv-remove!" | "hash-clear!" | "hash-map->list" | "hash-for-each" | "hash-fold" => {
+                let (tpos, fpos) = if matches!(name, "hash-map->list" | "hash-for-each" | "hash-fold") { (if name == "hash-fold" { 2 } else { 1 }, Some(0)) } else { (0, None) };
+                let Some(Val::Table(t)) = args.get(tpos) else { return runtime(format!("{name}: not a hash table")) };
+                // shared mutable state: the order of operations is up to the schedule
                 self.point();
-                let same = |a: &Val, b: &Val| match (a, b) {
-                    (Val::Str(x), Val::Str(y)) => x == y,
-                    (Val::Int(x), Val::Int(y)) => x == y,
-                    (Val::Char(x), Val::Char(y)) => x == y,
-                    (Val::Bool(x), Val::Bool(y)) => x == y,
-                    _ => false,
-                };
-                let mut tb = t.lock().unwrap();
-                match name {
-                    "hash-count" => Ok(Val::Int(tb.len() as i128)),
-                    "hash-ref" => {
-                        let key = args.get(1).cloned().unwrap_or(Val::Unspec);
-                        Ok(tb.iter().find(|(k, _)| same(k, &key)).map(|(_, v)| v.clone()).unwrap_or_else(|| args.get(2).cloned().unwrap_or(Val::Bool(false))))
+                let op = name.trim_start_matches("hashq-").trim_start_matches("hashv-").trim_start_matches("hash-");
+                if let Some(fpos) = fpos {
+                    let entries: Vec<(Val, Val)> = t.lock().unwrap().clone();
+                    let f = args[fpos].clone();
+                    return match name {
+                        "hash-for-each" => {
+                            for (k, v) in entries {
+                                self.apply(&f, vec![k, v], ctx)?;
+                            }
+                            Ok(Val::Unspec)
+                        }
+                        "hash-map->list" => {
+                            let mut out = vec![];
+                            for (k, v) in entries {
+                                out.push(self.apply(&f, vec![k, v], ctx)?);
+                            }
+                            Ok(Val::List(Arc::new(out)))
+                        }
+                        _ => {
+                            let mut acc = args.get(1).cloned().unwrap_or(Val::Unspec);
+                            for (k, v) in entries {
+                                acc = self.apply(&f, vec![k, v, acc], ctx)?;
+                            }
+                            Ok(acc)
+                        }
+                    };
+                }
+                match op {
+                    "count" => Ok(Val::Int(t.lock().unwrap().len() as i128)),
+                    "clear!" => {
+                        t.lock().unwrap().clear();
+                        Ok(Val::Unspec)
                     }
-                    "hash-remove!" => {
+                    "ref" => {
                         let key = args.get(1).cloned().unwrap_or(Val::Unspec);
-                        tb.retain(|(k, _)| !same(k, &key));
+                        let tb = t.lock().unwrap();
+                        Ok(tb.iter().find(|(k, _)| same_key(k, &key)).map(|(_, v)| v.clone()).unwrap_or_else(|| args.get(2).cloned().unwrap_or(Val::Bool(false))))
+                    }
+                    "remove!" => {
+                        let key = args.get(1).cloned().unwrap_or(Val::Unspec);
+                        t.lock().unwrap().retain(|(k, _)| !same_key(k, &key));
                         Ok(Val::Unspec)
                     }
                     _ => {
                         let key = args.get(1).cloned().unwrap_or(Val::Unspec);
                         let val = args.get(2).cloned().unwrap_or(Val::Unspec);
-                        if let Some(e) = tb.iter_mut().find(|(k, _)| same(k, &key)) {
+                        {
+                            let mut tb = t.lock().unwrap();
+                            if let Some(e) = tb.iter_mut().find(|(k, _)| same_key(k, &key)) {
+                                // the key has an entry: one store into it
+                                e.1 = val;
+                                return Ok(Val::Unspec);
+                            }
+                        }
+                        // A new key. Guile's hash tables take no lock of their own: the insertion reads
+                        // the bucket's chain, builds the new entry and stores the new chain head. An
+                        // insertion by another thread into the same bucket between the two is unlinked.
+                        let buckets = self.knobs.table_buckets.max(1) as u64;
+                        let mine = key_hash(&key) % buckets;
+                        let before: Vec<Val> = t.lock().unwrap().iter().map(|(k, _)| k.clone()).collect();
+                        if self.concurrent && ctx.thread != MAIN_THREAD {
+                            self.point();
+                        }
+                        let mut tb = t.lock().unwrap();
+                        tb.retain(|(k, _)| key_hash(k) % buckets != mine || before.iter().any(|b| same_key(b, k)));
+                        if let Some(e) = tb.iter_mut().find(|(k, _)| same_key(k, &key)) {
                             e.1 = val;
                         } else {
                             tb.push((key, val));
@@ -1532,7 +2183,7 @@ impl Runtime {
                 ctx.file = file;
                 self.ev(Ev::FileStart { thread, file });
                 if let Err(error) = self.apply(thunk, vec![], &mut ctx) {
-                    self.ev(Ev::Error { thread, file, error });
+                    self.ev(Ev::Error { thread, file, error: error.settle() });
                 }
                 self.ev(Ev::FileEnd { thread, file });
             }
@@ -1547,7 +2198,7 @@ impl Runtime {
             ctx.file = file;
             self.ev(Ev::FileStart { thread, file });
             if let Err(error) = self.apply(thunk, vec![], &mut ctx) {
-                self.ev(Ev::Error { thread, file, error });
+                self.ev(Ev::Error { thread, file, error: error.settle() });
             }
             self.ev(Ev::FileEnd { thread, file });
         }
@@ -1576,7 +2227,7 @@ impl Runtime {
         let mut ctx = Ctx::new(MAIN_THREAD);
         let r = self.eval_body(forms, &None, &mut ctx);
         self.flush_all(&ctx);
-        r?;
+        r.map_err(EvalErr::settle)?;
         Ok(())
     }
 }
